@@ -73,7 +73,19 @@ void Exec::release_all() {
   for (size_t i = 0; i < ptr.size(); ++i)
     if (ptr[i] && owned[i]) {
       sim_unfreeze(ptr[i]);
-      sim_release(ptr[i]);
+      if (owned[i] == 2) {
+        const Slot& s = P.slots[i];
+        if (s.type == T_BIG)
+          delete_vec_znx_big((VEC_ZNX_BIG*)ptr[i]);
+        else if (s.type == T_DFT)
+          delete_vec_znx_dft((VEC_ZNX_DFT*)ptr[i]);
+        else if (s.type == T_PPOL)
+          delete_svp_ppol((SVP_PPOL*)ptr[i]);
+        else
+          delete_vmp_pmat((VMP_PMAT*)ptr[i]);
+      } else {
+        sim_release(ptr[i]);
+      }
       ptr[i] = nullptr;
     }
   if (!base) {
@@ -141,10 +153,26 @@ uint8_t* Exec::ensure_slot(int si) {
     off8 &= ~1;
     if (place == SIM_PLACE_FLUSH_HIGH && (nb & 15)) place = SIM_PLACE_OFFSET;
   }
-  uint8_t* p = (uint8_t*)sim_alloc(nb, place, off8, fill, fseed, si);
+  uint8_t* p;
+  const bool fft64 = s.mod >= 0 && P.modules[s.mod].type == 0;
+  if (s.liballoc && fft64 && (s.type == T_BIG || s.type == T_DFT || s.type == T_PPOL || s.type == T_PMAT)) {
+    const MODULE* m = (const MODULE*)mods[s.mod];
+    sim_set_lib_fill(fill, fseed);
+    if (s.type == T_BIG)
+      p = (uint8_t*)new_vec_znx_big(m, s.size);
+    else if (s.type == T_DFT)
+      p = (uint8_t*)new_vec_znx_dft(m, s.size);
+    else if (s.type == T_PPOL)
+      p = (uint8_t*)new_svp_ppol(m);
+    else
+      p = (uint8_t*)new_vmp_pmat(m, s.size, s.sl);
+    owned[si] = 2;
+  } else {
+    p = (uint8_t*)sim_alloc(nb, place, off8, fill, fseed, si);
+    owned[si] = 1;
+  }
   ptr[si] = p;
   bytes[si] = nb;
-  owned[si] = 1;
   n_prefill[fill % SIM_FILL_NKINDS]++;
   if (place == SIM_PLACE_OFFSET)
     n_off[off8 & 7]++;
@@ -417,7 +445,7 @@ void Exec::run_call(int idx) {
   }
   if (oi.level == 3) {
     n_life++;
-    if (sim_lib_live_total() != life_live || sim_lib_live_since(life_mark) != 0) {
+    if (sim_current_task() < 0 && (sim_lib_live_total() != life_live || sim_lib_live_since(life_mark) != 0)) {
       Violation v;
       v.kind = "leak";
       v.detail = std::string(oi.name) + ": " + std::to_string(sim_lib_live_since(life_mark)) + " block(s) still allocated after delete";
